@@ -2,7 +2,9 @@
 
 Domain : token lists (vlib.gen_text) x two independent random layouts drawn over
          {SP, TAB, LF, CR, CRLF, VT, FF} and the dialect's comments, plus the
-         single-blank canonical layout; x six parser variants.
+         single-blank canonical layout; x six parser variants, plus five mixed
+         wirings pvl.loads(text, grammar=G(), decoder=D()) in which the decoder keeps
+         its own default grammar.
 Oracle : metamorphic - load(layout1) == load(layout2) == load(canonical), and no
          layout fails if the canonical one loads.
 """
@@ -46,8 +48,32 @@ def cases(draw, d):
     return dict(dialect=d, texts=texts, ntokens=len(doc["tokens"]))
 
 
+MIXED = {
+    # (grammar the caller names, decoder class built with its own default grammar)
+    "default+OmniDecoder()": ("default", "OmniDecoder"),
+    "default+PVLDecoder()": ("default", "PVLDecoder"),
+    "ISIS+OmniDecoder()": ("ISIS", "OmniDecoder"),
+    "ISIS+PVLDecoder()": ("ISIS", "PVLDecoder"),
+    "PVL+ODLDecoder()": ("PVL", "ODLDecoder"),
+}
+
+
+def mixed_parser(name):
+    """pvl.loads(text, grammar=G(), decoder=D()) where D() keeps its own default
+    grammar - the wiring a caller gets who passes both arguments."""
+    import pvl.decoder
+    import pvl.grammar
+    from pvl.parser import OmniParser
+    from vlib.budget import counting_lexer
+    gname, dname = MIXED[name]
+    g = {"default": pvl.grammar.OmniGrammar, "ISIS": pvl.grammar.ISISGrammar,
+         "PVL": pvl.grammar.PVLGrammar}[gname]()
+    return OmniParser(grammar=g, decoder=getattr(pvl.decoder, dname)(),
+                      lexer_fn=counting_lexer())
+
+
 def load(d, text):
-    p = budget_parser(d)
+    p = mixed_parser(d) if d in MIXED else budget_parser(d)
     try:
         m = p.parse(text)
     except BudgetExceeded:
@@ -117,10 +143,41 @@ def random_cases(acc, d, n, seed):
     body()
 
 
+def mixed_cases(acc, name, n, seed):
+    """The same metamorphic relation under a mixed grammar/decoder wiring; documents
+    and comment syntax come from the grammar the caller names."""
+    gd = MIXED[name][0]
+
+    @hseed(seed)
+    @settings(max_examples=n, database=None, deadline=None,
+              phases=[Phase.generate],
+              suppress_health_check=list(HealthCheck))
+    @given(cases(gd))
+    def body(case):
+        if acc.expired():
+            acc.notes["budget_exhausted"] = 1
+            return
+        case = dict(case, dialect=name)
+        r = run_case(case)
+        acc.event(f"{name}:{r[0]}")
+        if r[0] == "skip":
+            return
+        nt = case["texts"][1] != case["texts"][2]
+        acc.case(key=name + "\0" + case["texts"][1] + "\0" + case["texts"][2],
+                 nontrivial=nt)
+        if r[0] == "fail":
+            acc.fail(r[1], dict(dialect=name, texts=case["texts"]), r[2])
+
+    body()
+
+
 def shards(tier, seed):
     n = 260 if tier == "quick" else 7000
-    return [("random_cases", dict(d=PARSERS[j % 6], n=n, seed=seed * 1000 + j))
-            for j in range(18)]
+    out = [("random_cases", dict(d=PARSERS[j % 6], n=n, seed=seed * 1000 + j))
+           for j in range(18)]
+    for j, name in enumerate(MIXED):
+        out.append(("mixed_cases", dict(name=name, n=n // 2, seed=seed * 1000 + 50 + j)))
+    return out
 
 
 def replay(case):
